@@ -196,7 +196,7 @@ def install(w):
     def _unit(ex, st, obj, node):
         return arg_get(ex, st, obj, "unit", Opt(E))
 
-    @prop("to", exp.Cast)
+    @prop("to")
     def _to(ex, st, obj, node):
         return arg_get(ex, st, obj, "to", exp.DataType)
 
@@ -616,6 +616,10 @@ def install(w):
     @sf("find_ident")
     def _find_ident(ex, st, args):
         return find_like("find", ex, st, args[0], [exp.Identifier], True)
+
+    @sf("find_tuple")
+    def _find_tuple(ex, st, args):
+        return find_like("find", ex, st, args[0], [exp.Tuple], True)
 
     @sf("find_table")
     def _find_table(ex, st, args):
